@@ -965,6 +965,13 @@ class STensor:
     def logical_not(self):
         return STensor.from_flat([not _truth(x) for x in self.flat()], self.shape, BOOL)
 
+    def isnan(self):
+        # symbolic values stand for real numbers in the documented ranges
+        return STensor.from_flat([False for _ in self.flat()], self.shape, BOOL)
+
+    def isinf(self):
+        return STensor.from_flat([False for _ in self.flat()], self.shape, BOOL)
+
     def all(self, *a, **k):
         if a or k:
             raise Unsupported("all(dim)")
